@@ -254,7 +254,7 @@ func checkC18(r *Run) {
 	for _, fn := range P.RepoFns {
 		fn := fn
 		name := short(enclosingTop(fn).String())
-		Instrs(fn, func(in ssa.Instruction) {
+		InstrsRaw(fn, func(in ssa.Instruction) {
 			ci, ok := in.(ssa.CallInstruction)
 			if !ok {
 				return
